@@ -33,6 +33,7 @@ Definition fb (v h ts n ne : N) (others : packed) (rc a0 a1 a2 sb did nd sg diff
 Inductive c16_case :=
 | CSet (own : N)                                  (* dense id of the hash of the job's own hashing id *)
        (m_ts m_n m_ne : N) (m_ch : packed)        (* the blob handed to setMiningBlob *)
+       (dec : N)   (* MiningBlob.Deserialize of the blob's bytes: 0 = the same value, 1 = refused, 2 = another value, 3 = panic *)
        (res : N)                                  (* 0 = nil, 1 = error, 2 = panic *)
        (a_ts a_n a_ne : N) (a_others : packed)    (* timestamp, nonce, nonce extra, OtherChains of the job afterwards *)
        (rest_same : bool)                         (* every other field of the job is unchanged *)
@@ -71,8 +72,10 @@ Definition blob_valid (own : N) (ch : list hidN) : bool :=
 
 Definition c16_corr (c : c16_case) : bool :=
   match c with
-  | CSet own m_ts m_n m_ne m_ch res a_ts a_n a_ne a_others rest_same recon pure =>
+  | CSet own m_ts m_n m_ne m_ch dec res a_ts a_n a_ne a_others rest_same recon pure =>
       let m := mkblob N m_ts m_n m_ne (dec_chains m_ch) in
+      (* the codec accepts exactly the blobs with 1..MAX_MERGE_MINED_CHAINS entries (byte-level model: C13) *)
+      (dec =? (if (1 <=? N.of_nat (length (dec_chains m_ch))) && (N.of_nat (length (dec_chains m_ch)) <=? max_mm_chains cfg) then 0 else 1)) &&
       match set_mining_blob cfg N N.eqb dummy_job m with
       | SmbErr => res =? 1
       | SmbOk b' =>
@@ -123,7 +126,7 @@ Definition same_but_ps (b1 b2 : blk) : bool :=
 (* the property, decided on what the implementation returned; 0 = holds, else the failed conjunct *)
 Definition c16_prop (c : c16_case) : N :=
   match c with
-  | CSet own m_ts m_n m_ne m_ch res a_ts a_n a_ne a_others rest_same recon pure =>
+  | CSet own m_ts m_n m_ne m_ch dec res a_ts a_n a_ne a_others rest_same recon pure =>
       let ch := dec_chains m_ch in
       first_fail [
         (1, negb (res =? 2) && negb (recon =? 2));                       (* no panic *)
@@ -139,7 +142,10 @@ Definition c16_prop (c : c16_case) : N :=
         (4, implb (negb (blob_wellformed ch)) (res =? 1));
         (* this network's entry is not the job's hashing id: the work is not credited
            (setMiningBlob may accept, but the block's own blob then differs from the mined one) *)
-        (5, implb (negb (blob_valid own ch)) (negb ((res =? 0) && (recon =? 0))))]
+        (5, implb (negb (blob_valid own ch)) (negb ((res =? 0) && (recon =? 0))));
+        (* the solved blob arrives as bytes: with this chain's entry and 0..MAX-1 other chains it is decoded to itself *)
+        (6, negb (dec =? 3) && negb (dec =? 2) &&
+            implb (blob_valid own ch && (N.of_nat (length ch) <=? max_mm_chains cfg)) (dec =? 0))]
   | CSort which l own res pure =>
       let inp := if which =? 0 then dec_chains l else dec_chains l ++ [(own_net, own)] in
       first_fail [
